@@ -1401,6 +1401,9 @@ class P2PRechunk(ArrayExpr):
         new = self.chunks
         if any(math.isnan(c) for dim in (*old, *new) for c in dim):
             return TransferBytes(math.nan, math.nan)
+        if old == new:
+            # nothing is shuffled: every output block is one input block
+            return TransferBytes(0, 0)
         lo, _ = _rechunk_stage_transfer(old, new, itemsize)
         return TransferBytes(lo, self.array.nbytes)
 
